@@ -126,6 +126,53 @@ for grid, T in (("s", "2s"), ("s", "1s"), ("ns", "2ns"), ("ns", "1ns")):
        "window(value).groupby(series).mean")
     TGRP[grid] += ["%s.groupby(col).sum" % lab, "%s.groupby(series).mean" % lab]
 
+# --- resumed with start=state alone (the new pipeline does not expose its own state) ----------------------------
+
+
+def _k2(st, fresh, **extra):
+    kw = dict(extra)
+    if fresh:
+        kw["with_state"] = True
+    else:
+        kw["start"] = st
+    return kw
+
+
+def wp(key, build, site=None):
+    add(key, F.with_state_then_plain(build), site)
+
+
+PLAIN = []
+for n in (1, 2):
+    lab = "window(n=%d)" % n
+    for op in ("sum", "mean", "var"):
+        wp("%s.%s[start only]" % (lab, op), lambda d, st, fresh, n=n, op=op: getattr(d.window(n=n, **_k2(st, fresh)).x, op)(), "window(n).%s" % op)
+    wp("%s.full[start only]" % lab, lambda d, st, fresh, n=n: d.window(n=n, **_k2(st, fresh)).full(), "window(n).full")
+    wp("%s.sum[frame][start only]" % lab, lambda d, st, fresh, n=n: d.window(n=n, **_k2(st, fresh))[XY].sum(), "window(n).sum")
+    wp("%s.sum[x*y+1][start only]" % lab, lambda d, st, fresh, n=n: (lambda w: (w.x * w.y + 1).sum())(d.window(n=n, **_k2(st, fresh))), "window(n).sum")
+    wp("%s.groupby(col).sum[start only]" % lab, lambda d, st, fresh, n=n: d.window(n=n, **_k2(st, fresh)).groupby("k").x.sum(),
+       "window(n).groupby(col).sum")
+    wp("%s.groupby(col).mean[start only]" % lab, lambda d, st, fresh, n=n: d.window(n=n, **_k2(st, fresh)).groupby("k").x.mean(),
+       "window(n).groupby(col).mean")
+wp("rolling(2).sum[start only]", lambda d, st, fresh: d.rolling(2, **_k2(st, fresh)).x.sum(), "rolling(n).sum")
+wp("rolling(2).mean[start only]", lambda d, st, fresh: d.rolling(2, **_k2(st, fresh)).x.mean(), "rolling(n).mean")
+wp("expanding.sum[start only]", lambda d, st, fresh: d.expanding(**_k2(st, fresh)).x.sum(), "expanding.sum")
+wp("expanding.var[start only]", lambda d, st, fresh: d.expanding(**_k2(st, fresh)).x.var(), "expanding.var")
+wp("ewm(com=1).mean[start only]", lambda d, st, fresh: d.ewm(com=1, **_k2(st, fresh)).x.mean(), "ewm.mean")
+wp("ewm(com=3).mean[start only]", lambda d, st, fresh: d.ewm(com=3, **_k2(st, fresh)).x.mean(), "ewm.mean")
+wp("groupby(col).mean[start only]", lambda d, st, fresh: d.groupby("k").x.mean(**_k2(st, fresh)), "groupby(col).mean")
+wp("groupby(series).mean[start only]", lambda d, st, fresh: d.groupby(d.k).x.mean(**_k2(st, fresh)), "groupby(series).mean")
+wp("groupby(col).mean[frame][start only]", lambda d, st, fresh: d.groupby("k")[XY].mean(**_k2(st, fresh)), "groupby(col).mean")
+PLAIN = [k for k in SPECS if k.endswith("[start only]")]
+TPLAIN = {"s": [], "ns": []}
+for grid, T in (("s", "2s"), ("ns", "2ns")):
+    lab = "window(value=%s)" % T
+    wp("%s.sum[start only]" % lab, lambda d, st, fresh, T=T: d.window(value=T, **_k2(st, fresh)).x.sum(), "window(value).sum")
+    wp("rolling(%s).sum[start only]" % T, lambda d, st, fresh, T=T: d.rolling(T, **_k2(st, fresh)).x.sum(), "rolling(time).sum")
+    wp("%s.groupby(col).sum[start only]" % lab, lambda d, st, fresh, T=T: d.window(value=T, **_k2(st, fresh)).groupby("k").x.sum(),
+       "window(value).groupby(col).sum")
+    TPLAIN[grid] = ["%s.sum[start only]" % lab, "rolling(%s).sum[start only]" % T, "%s.groupby(col).sum[start only]" % lab]
+
 LONG = ["window(n=3).sum", "window(n=3).full", "window(n=2).groupby(col).sum", "rolling(3).sum"]
 
 
@@ -143,6 +190,9 @@ def plan(ctx):
         for g in ("s", "ns"):
             su.append(F.Suite(TVAL[g], "v", {1: 2, 2: 2, 3: 1}, grid=g))
             su.append(F.Suite(TGRP[g], "kv3", {1: 2, 2: 2, 3: 0}, grid=g))
+            su.append(F.Suite(TPLAIN[g], "kv3", {2: 2, 3: 1}, grid=g))
+        su.append(F.Suite(PLAIN, "kv3", {2: 2, 3: 2, 4: 1}))
+        su.append(F.Suite(PLAIN, "inc", {3: 1, 4: 0}))
         return su
     q3 = ["Series.mean", "DataFrame.sum", "rolling(2).sum", "expanding.var", "ewm(com=1).mean",
           "window(n=2).sum", "window(n=2).full", "window(n=2).value_counts"]
@@ -155,6 +205,9 @@ def plan(ctx):
         su.append(F.Suite(TVAL[g], "v", {1: 1, 2: 1}, grid=g))
         su.append(F.Suite(core(TVAL[g]), "v", {3: 0}, grid=g))
         su.append(F.Suite(TGRP[g], "kv3", {1: 1, 2: 1}, grid=g))
+        su.append(F.Suite(TPLAIN[g], "kv3", {2: 1, 3: 0}, grid=g))
+    su.append(F.Suite(PLAIN, "kv3", {2: 1, 3: 1}))
+    su.append(F.Suite(PLAIN, "inc", {3: 0}))
     return su
 
 
